@@ -129,6 +129,107 @@ func runRedef(c *Ctx) {
 					"every path that connects a candidate input to the root passes `no input filter` or `filter(value) == true` (must-pass edges)",
 					ternary(!leak, fmt.Sprintf("edge unreachable once the %d gate edges are cut", len(allowed)), "a path reaches the root edge without passing the filter"))
 			}
+			// the converse: nothing but the vertex kind and the filter's answer keeps a candidate from the root. From the
+			// start of the iteration, with the edge site removed and the two legitimate rejections cut (the filter said no;
+			// the vertex is neither a named value nor a typed argument), the iteration cannot be left.
+			if start != nil && start.Parent() == gfn {
+				var target ssa.Instruction = g9.Inner
+				cut := map[[2]*ssa.BasicBlock]bool{}
+				for _, u := range *fcall.Referrers() {
+					c.allowEdge(u, fcall, false, cut)
+				}
+				isKindTest := func(b *ssa.BasicBlock) bool {
+					if len(b.Instrs) == 0 {
+						return false
+					}
+					iff, ok := b.Instrs[len(b.Instrs)-1].(*ssa.If)
+					if !ok {
+						return false
+					}
+					ex, ok := iff.Cond.(*ssa.Extract)
+					if !ok || ex.Index != 1 {
+						return false
+					}
+					ta, ok := ex.Tuple.(*ssa.TypeAssert)
+					if !ok || !ta.CommaOk || (ta.X != g9.C && core.Path(ta.X) != core.Path(g9.C)) {
+						return false
+					}
+					k := core.NamedOf(ta.AssertedType)
+					return k == kinds.Value || k == kinds.Arg
+				}
+				inBody := func(b *ssa.BasicBlock) bool { return start.Dominates(b) }
+				// successors actually possible: a constant condition has one
+				succs := func(b *ssa.BasicBlock) []*ssa.BasicBlock {
+					if len(b.Instrs) > 0 {
+						if iff, ok := b.Instrs[len(b.Instrs)-1].(*ssa.If); ok {
+							if k, ok := iff.Cond.(*ssa.Const); ok && k.Value != nil {
+								if k.Value.ExactString() == "true" {
+									return b.Succs[:1]
+								}
+								return b.Succs[1:]
+							}
+						}
+					}
+					return b.Succs
+				}
+				for _, b := range gfn.Blocks {
+					if !inBody(b) || !isKindTest(b) {
+						continue
+					}
+					// the failing edge of the last kind test: no further kind test can follow it
+					fs := b.Succs[1]
+					more := false
+					seen := map[*ssa.BasicBlock]bool{fs: true}
+					work := []*ssa.BasicBlock{fs}
+					for len(work) > 0 {
+						x := work[len(work)-1]
+						work = work[:len(work)-1]
+						if !inBody(x) || x == start {
+							continue
+						}
+						if isKindTest(x) {
+							more = true
+						}
+						for _, y := range succs(x) {
+							if !seen[y] {
+								seen[y] = true
+								work = append(work, y)
+							}
+						}
+					}
+					if !more {
+						cut[[2]*ssa.BasicBlock{b, fs}] = true
+					}
+				}
+				leakAt := ""
+				seen := map[*ssa.BasicBlock]bool{start: true}
+				work := []*ssa.BasicBlock{start}
+				for len(work) > 0 && leakAt == "" {
+					b := work[len(work)-1]
+					work = work[:len(work)-1]
+					if b == target.Block() {
+						continue
+					}
+					for _, y := range succs(b) {
+						if cut[[2]*ssa.BasicBlock{b, y}] {
+							continue
+						}
+						if !inBody(y) || y == start {
+							leakAt = p.InstrPos(b.Instrs[len(b.Instrs)-1])
+							break
+						}
+						if !seen[y] {
+							seen[y] = true
+							work = append(work, y)
+						}
+					}
+				}
+				if target.Block() != nil && inBody(target.Block()) {
+					c.R.Add("REDEF-R1", "graphBuilder|filter-is-sufficient", "graphBuilder", g9.Pos, leakAt == "",
+						"in redefine mode every named-value or typed-argument vertex the input filter permits (or every one, without a filter) is connected to the root: no other condition skips a candidate",
+						ternary(leakAt == "", "the iteration can only end through the root edge, a filter rejection or the kind dispatch", "a candidate can be skipped at "+leakAt+" without consulting the filter"))
+				}
+			}
 			// the filtered Value describes that very vertex
 			descOK := false
 			arg := fcall.Common().Args[0]
@@ -184,80 +285,84 @@ func runRedef(c *Ctx) {
 		if !ok || fr.Owner != "callState" || !strings.Contains(core.TypeStr(mu.Map.Type()), "graph.Vertex") {
 			return
 		}
-		n++
-		key := fmt.Sprintf("resolver|input-set insertion#%d", n)
-		// (a) path head: value is a phi/element of this iteration's EdgeToPath result, index 0 or 1
-		isHead := true
-		any := false
-		for _, s := range p.ISources(mu.Value) {
-			any = true
-			ld, ok := s.(*ssa.UnOp)
-			if !ok {
-				isHead = false
-				continue
-			}
-			ia, ok := ld.X.(*ssa.IndexAddr)
-			if !ok {
-				isHead = false
-				continue
-			}
-			k, isK := core.ConstInt(ia.Index)
-			if !isK || k > 1 || !derivesFromCall(ia.X, core.GEdgeToPath) {
-				isHead = false
-				continue
-			}
-			if k == 1 {
-				// only when element 0 is the root and the path is longer
-				lits := core.Lits(core.Guards(ld.Block()))
-				rootFirst, longer := false, false
-				for _, l := range lits {
-					if l.Kind == "ok" && l.Pol {
-						if ta, ok := l.Of.(*ssa.TypeAssert); ok && core.NamedOf(ta.AssertedType) == kinds.Root {
-							rootFirst = true
-						}
-					}
-					if l.Kind == "cmp" && l.Op == token.GTR && l.Pol {
-						if kk, ok := core.ConstInt(l.Y); ok && kk == 1 {
-							longer = true
-						}
-					}
-				}
-				if !(rootFirst && longer) {
+		// an insertion made by a setter of the state (`state.recordInput(v)`) is judged at each of its call sites
+		for _, ex := range p.Expand(mu) {
+			muValue := ex.Sub(mu.Value)
+			n++
+			key := fmt.Sprintf("resolver|input-set insertion#%d", n)
+			// (a) path head: value is a phi/element of this iteration's EdgeToPath result, index 0 or 1
+			isHead := true
+			any := false
+			for _, s := range p.ISources(muValue) {
+				any = true
+				ld, ok := s.(*ssa.UnOp)
+				if !ok {
 					isHead = false
+					continue
+				}
+				ia, ok := ld.X.(*ssa.IndexAddr)
+				if !ok {
+					isHead = false
+					continue
+				}
+				k, isK := core.ConstInt(ia.Index)
+				if !isK || k > 1 || !derivesFromCall(ia.X, core.GEdgeToPath) {
+					isHead = false
+					continue
+				}
+				if k == 1 {
+					// only when element 0 is the root and the path is longer
+					lits := core.Lits(core.Guards(ld.Block()))
+					rootFirst, longer := false, false
+					for _, l := range lits {
+						if l.Kind == "ok" && l.Pol {
+							if ta, ok := l.Of.(*ssa.TypeAssert); ok && core.NamedOf(ta.AssertedType) == kinds.Root {
+								rootFirst = true
+							}
+						}
+						if l.Kind == "cmp" && l.Op == token.GTR && l.Pol {
+							if kk, ok := core.ConstInt(l.Y); ok && kk == 1 {
+								longer = true
+							}
+						}
+					}
+					if !(rootFirst && longer) {
+						isHead = false
+					}
 				}
 			}
-		}
-		// (b) direct use of a supplied named value
-		lits := core.Lits(core.Guards(mu.Block()))
-		direct := false
-		hasValid, hasRoot := false, false
-		for _, l := range lits {
-			if l.Kind == "call" && l.Callee == core.RVIsValid && l.Pol {
-				hasValid = true
-			}
-			if l.Kind == "cmp" && l.Op == token.EQL && l.Pol {
-				for _, v := range []ssa.Value{l.X, l.Y} {
-					if prm, ok := v.(*ssa.Parameter); ok {
-						if ks := p.KindOf(prm); len(ks) == 1 && ks[0] == kinds.Root {
-							hasRoot = true
+			// (b) direct use of a supplied named value
+			lits := core.Lits(core.Guards(ex.At.Block()))
+			direct := false
+			hasValid, hasRoot := false, false
+			for _, l := range lits {
+				if l.Kind == "call" && l.Callee == core.RVIsValid && l.Pol {
+					hasValid = true
+				}
+				if l.Kind == "cmp" && l.Op == token.EQL && l.Pol {
+					for _, v := range []ssa.Value{l.X, l.Y} {
+						if prm, ok := v.(*ssa.Parameter); ok {
+							if ks := p.KindOf(prm); len(ks) == 1 && ks[0] == kinds.Root {
+								hasRoot = true
+							}
 						}
 					}
 				}
 			}
-		}
-		if hasValid && hasRoot {
-			if id, ok := mu.Key.(*ssa.Call); ok && core.CalleeName(id.Common()) == core.GVertexID && id.Common().Args[0] == mu.Value {
-				direct = true
+			if hasValid && hasRoot {
+				if id, ok := mu.Key.(*ssa.Call); ok && core.CalleeName(id.Common()) == core.GVertexID && id.Common().Args[0] == mu.Value {
+					direct = true
+				}
 			}
+			keyOK := false
+			if id, ok := mu.Key.(*ssa.Call); ok && core.CalleeName(id.Common()) == core.GVertexID && id.Common().Args[0] == mu.Value {
+				keyOK = true
+			}
+			okk := keyOK && ((any && isHead) || direct)
+			c.R.Add("REDEF-R2", key, "resolver", p.InstrPos(ex.At), okk,
+				"only the head of a chosen path (the root's successor) or a supplied named value hanging off the root is recorded as a required input — never a value some converter on the chain produces",
+				fmt.Sprintf("keyed-by-own-id=%v path-head=%v direct-supplied=%v", keyOK, any && isHead, direct))
 		}
-		keyOK := false
-		if id, ok := mu.Key.(*ssa.Call); ok && core.CalleeName(id.Common()) == core.GVertexID && id.Common().Args[0] == mu.Value {
-			keyOK = true
-		}
-		okk := keyOK && ((any && isHead) || direct)
-		c.R.Add("REDEF-R2", key, "resolver", p.InstrPos(mu), okk,
-			"only the head of a chosen path (the root's successor) or a supplied named value hanging off the root is recorded as a required input — never a value some converter on the chain produces",
-			fmt.Sprintf("keyed-by-own-id=%v path-head=%v direct-supplied=%v", keyOK, any && isHead, direct))
 	})
 	if n == 0 {
 		c.R.Add("REDEF-R2", "resolver|input-set insertion", "resolver", p.Pos(res.Pos()), false, "the resolver records which inputs its chosen paths start from", "no insertion into the input set")
@@ -470,6 +575,10 @@ func runRedef(c *Ctx) {
 					early = "loop over the outputs not recognised"
 					continue
 				}
+				// no output is passed over: from the start of an iteration the next one is reached only through the filter call
+				if ld.Block() != fcall.Block() && ld.Block().Parent() == fcall.Parent() && core.ReachableAvoiding(ld.Block(), hdr, map[*ssa.BasicBlock]bool{fcall.Block(): true}) {
+					early = "an iteration can end without the output having been shown to the filter (a condition before the filter call at " + p.InstrPos(fcall) + " skips it)"
+				}
 				for _, r := range core.Returns(validator) {
 					if core.ReachableAvoiding(fcall.Block(), r.Block(), map[*ssa.BasicBlock]bool{hdr: true}) {
 						early = "the function can be left at " + p.InstrPos(r) + " from inside the loop without examining the remaining outputs"
@@ -658,7 +767,18 @@ func runRedef(c *Ctx) {
 				private = true
 				core.Instrs(x.Parent(), func(in ssa.Instruction) {
 					if cl, ok := in.(*ssa.Call); ok && core.CalleeName(cl.Common()) == "builtin.copy" && cl.Common().Args[0] == ssa.Value(x) {
-						if capturedIs(cl.Common().Args[1], 1) {
+						src := cl.Common().Args[1]
+						for i := 0; i < 3; i++ {
+							// the copy is made inside a list-building step: its parameter is the list handed to the step
+							if prm, ok := src.(*ssa.Parameter); ok {
+								if a, ok := bindings[prm]; ok {
+									src = a
+									continue
+								}
+							}
+							break
+						}
+						if capturedIs(src, 1) {
 							hasOpts = true
 						}
 					}
